@@ -378,6 +378,37 @@ fn gen_script(rng: &mut StdRng, always_restart: bool, fbmode: bool) -> J {
             steps.push(json!({"a": "DirectRead", "addr": {"area": area, "size": sz, "byte": b, "bit": if sz == "X" { bit } else { 0 }}}));
         }
     }
+    // a second life: fault, restart, a few healthy cycles, and a fault again -- everything the fault handling
+    // consumed or latched the first time must be there again the second time
+    if faulty && rng.gen_bool(0.3) {
+        let mut fault = |steps: &mut Vec<J>, rng: &mut StdRng| {
+            match rng.gen_range(0..3) {
+                0 => steps.push(json!({"a": "Watchdog"})),
+                1 => steps.push(json!({"a": "SimFault"})),
+                _ => {
+                    let j = rng.gen_range(0..np);
+                    let nst = programs[j]["copies"].as_array().unwrap().len();
+                    steps.push(json!({"a": "Inject", "prog": format!("P{j}"), "at": rng.gen_range(1..=nst + 1)}));
+                    steps.push(json!({"a": "Advance", "dt": 11}));
+                    steps.push(json!({"a": "Cycle"}));
+                }
+            }
+        };
+        fault(&mut steps, rng);
+        steps.push(json!({"a": "Cycle"}));
+        steps.push(json!({"a": "Restart", "mode": if rng.gen_bool(0.5) { "warm" } else { "cold" }}));
+        for _ in 0..rng.gen_range(1..3) {
+            let dt = [2, 3, 5][rng.gen_range(0..3)];
+            steps.push(json!({"a": "Advance", "dt": dt}));
+            for d in 1..=2 {
+                let bytes: Vec<u8> = (0..IMG / 2).map(|_| rng.gen_range(0..=255)).collect();
+                steps.push(json!({"a": "SetSrc", "d": d, "bytes": bytes}));
+            }
+            steps.push(json!({"a": "Cycle"}));
+        }
+        fault(&mut steps, rng);
+        steps.push(json!({"a": "Cycle"}));
+    }
     json!({"cfg": cfg, "steps": steps, "dbg": dbg_run})
 }
 
